@@ -90,7 +90,8 @@ def _parse_comments(tokens: TokenIterator):
     """
     metadata = {}
     while tokens.peek().type == 'COMMENT':
-        comment = tokens.next().text
+        # a line that kept its CRLF/CR terminator leaves the CR in the token
+        comment = tokens.next().text.rstrip('\r\n')
         while comment:
             comment, found, meta = comment.rpartition('::')
             if found:
